@@ -45,6 +45,13 @@ def generate(seed, tier):
         for _ in range(r.randint(1, 3)):
             sc['ops'].append({'t': round(r.uniform(1.5, T), 3), 'op': 'clockjump', 'node': r.choice('AB'),
                               'delta': r.choice([-1.0, -30.0, -300.0, 2.5, 40.0, 400.0])})
+    if r.random() < 0.3:
+        # copies of datagrams the legitimate peer sent (protected ones, bare headers with the right SPIs) arrive from an address nobody lives
+        # at: the IKE_SA and its kernel SAs stay bound to the addresses they were set up between
+        for _ in range(r.randint(1, 4)):
+            sc['ops'].append({'t': round(r.uniform(1.5, T), 3), 'op': 'call', 'name': 'stray_source', 'node': r.choice('AB'), 'pick': r.randrange(1000),
+                              'bare': r.random() < 0.4})
+        sc['meta']['stray_source'] = True
     sc['ops'].sort(key=lambda x: x['t'])
     if r.random() < 0.25:
         # Byzantine peer batch: replies a conforming peer may send but this implementation never does, and defective replies
@@ -63,12 +70,29 @@ def _run_once(scenario):
         ctx['cov'] = workload.Coverage(w)
         ctx['inv'] = LedgerInvariant(w, PROP)
         _byz(w, ctx, scenario)
+
     w = execute(scenario, setup, ctx)
     return w, ctx
 
 
 def _byz(w, ctx, scenario):
     ctx['byz_reach'] = {}
+
+    def stray_source(w, op):
+        node = w.nodes[op['node']]
+        if node.state != 'running' or node.exited:
+            return
+        mine = [str(a) for a in node.addrs]
+        recs = [x for x in ctx['wire'].sent if x['dst'] in mine and x['h'] is not None and x['h']['exch'] != 34 and x['sender'] != node.name]
+        if not recs:
+            return
+        rec = recs[-1 - (op['pick'] % min(len(recs), 6))]
+        data = rec['data'][:16] + bytes([0]) + rec['data'][17:24] + (28).to_bytes(4, 'big') if op.get('bare') else rec['data']
+        src = '10.0.0.9' if ':' not in rec['dst'] else 'fd00::9'
+        ctx['byz_reach']['stray_source'] = ctx['byz_reach'].get('stray_source', 0) + 1
+        w.net.inject(data, src, rec['dst'], 0.0, 'stray_source')
+    ctx['handlers'] = {'stray_source': stray_source}
+
     if scenario.get('byz'):
         from sim import byz
         from sim.interpose import Interposer
